@@ -5,7 +5,7 @@
 From Coq Require Import List Arith Bool Permutation Floats Reals.
 From ET Require Import Model.Scalar Model.Sparse Proofs.SparseBase Proofs.MergeProofs Proofs.VectorProofs
   Proofs.RInst Proofs.F64Lemmas Generated.KbnGen Proofs.KbnGenProofs
-  Proofs.ScaleRound Proofs.F64Round Proofs.F64Scale Proofs.RoundNonneg Proofs.F64Nonneg.
+  Proofs.ScaleRound Proofs.F64Round Proofs.F64Scale Proofs.RoundNonneg Proofs.RoundAccuracy Proofs.F64Nonneg.
 From Flocq Require Core.
 Import ListNotations.
 
@@ -130,6 +130,28 @@ Theorem C09_kbn_nonneg_f64 :
     finite64 (@kbn_total F64 l) /\ (0 <= val64 (@kbn_total F64 l))%R.
 Proof. exact kbn_total_nonneg_F64. Qed.
 Print Assumptions C09_kbn_nonneg_f64.
+
+(** (rounded arithmetic / F) first-order accuracy of the compensated sum on non-negative data: under
+    any rounding of relative error at most [u <= 2^-10], for [8 u n <= 1/2], the returned sum is within
+    [14 n u] (relative) of the exact sum; instantiated for the binary64 instance under [fold_ok] (no
+    overflow / underflow) with u = 2^-53.  (The second-order accuracy that the compensation buys — the
+    design-time statement quoted at [C09_kbn_step_partial] — is still not proved.) *)
+Theorem C09_kbn_accuracy_rounded :
+  forall (rnd : R -> R) (u : R), (0 <= u)%R -> (u <= /1024)%R ->
+    (forall x, exists eps, (Rabs eps <= u)%R /\ rnd x = (x * (1 + eps))%R) ->
+    forall l : list R, Forall (fun x => (0 <= x)%R) l -> (INR (length l) * (8 * u) <= /2)%R ->
+      (Rabs (@kbn_total (RND rnd) l - lsum l) <= 14 * INR (length l) * u * lsum l)%R.
+Proof. exact kbn_total_accuracy_nonneg. Qed.
+Print Assumptions C09_kbn_accuracy_rounded.
+
+Theorem C09_kbn_accuracy_f64 :
+  forall l : list PrimFloat.float,
+    Forall finite64 l -> Forall (fun x => (0 <= val64 x)%R) l ->
+    fold_ok (@kbn0 B64) (map val64 l) ->
+    (INR (length l) <= Flocq.Core.Raux.bpow Flocq.Core.Zaux.radix2 49)%R ->
+    (Rabs (val64 (@kbn_total F64 l) - lsum (map val64 l)) <= 14 * INR (length l) * u64 * lsum (map val64 l))%R.
+Proof. exact kbn_total_accuracy_F64. Qed.
+Print Assumptions C09_kbn_accuracy_f64.
 
 (** (R) Over the reals the compensated sum is the sum, and every operation is
     the dense operation. *)
